@@ -400,7 +400,15 @@ fn stream_a_case(x: &X, row: &[V], model: &mut model::Model, rep: &mut Report, t
                     match row[i] {
                         V::S(_) => "VARCHAR(10)",
                         V::B(_) => "BOOLEAN",
-                        _ => "INTEGER",
+                        // the coerced (non-fast-path) arithmetic is reached through operands of
+                        // another exact type: BIGINT columns hold the same 64-bit values
+                        _ => {
+                            if tag.contains("bigint") {
+                                "BIGINT"
+                            } else {
+                                "INTEGER"
+                            }
+                        }
                     }
                 )
             })
@@ -487,7 +495,39 @@ fn stream_a(args: &Args, rng: &mut Rng, model: &mut model::Model, rep: &mut Repo
             }
         }
     }
+    // the same boundary pairs with the left operand in a BIGINT column (coerced path, not the
+    // Integer×Integer fast path) and the right operand a literal, and both in BIGINT columns
+    let mut k2 = 0usize;
+    for op in ops {
+        for a in &small {
+            for b in &small {
+                k2 += 1;
+                if k2 % stride != (args.seed as usize) % stride {
+                    continue;
+                }
+                let x = X::Bin(op, Box::new(X::Col(0)), Box::new(X::Lit(V::I(*b))));
+                stream_a_case(&x, &[V::I(*a)], model, rep, "pairs_bigint_col_lit");
+                if k2 % (2 * stride) == (args.seed as usize) % stride {
+                    let y = X::Bin(op, Box::new(X::Col(0)), Box::new(X::Col(1)));
+                    stream_a_case(&y, &[V::I(*a), V::I(*b)], model, rep, "pairs_bigint_col_col");
+                }
+            }
+        }
+    }
+    // the panicking / wrapping corners explicitly, whatever the stride
+    for op in ops {
+        for (a, b) in [(MINI, -1i64), (MINI, 1), (MAXI, -1), (MINI, MINI), (MAXI, MAXI), (MINI, 0)] {
+            let x = X::Bin(op, Box::new(X::Col(0)), Box::new(X::Lit(V::I(b))));
+            stream_a_case(&x, &[V::I(a)], model, rep, "corner_bigint_col_lit");
+            let y = X::Bin(op, Box::new(X::Lit(V::I(a))), Box::new(X::Col(0)));
+            stream_a_case(&y, &[V::I(b)], model, rep, "corner_lit_bigint_col");
+            let z = X::Bin(op, Box::new(X::Lit(V::I(a))), Box::new(X::Lit(V::I(b))));
+            stream_a_case(&z, &[], model, rep, "corner_literals");
+        }
+    }
     for a in &small {
+        stream_a_case(&X::Neg(Box::new(X::Col(0))), &[V::I(*a)], model, rep, "unary_bigint_col");
+        stream_a_case(&X::Abs(Box::new(X::Col(0))), &[V::I(*a)], model, rep, "unary_bigint_col");
         stream_a_case(&X::Neg(Box::new(X::Lit(V::I(*a)))), &[], model, rep, "unary");
         stream_a_case(&X::Abs(Box::new(X::Lit(V::I(*a)))), &[], model, rep, "unary");
         stream_a_case(&X::Neg(Box::new(X::Col(0))), &[V::I(*a)], model, rep, "unary_col");
@@ -517,7 +557,7 @@ fn stream_a(args: &Args, rng: &mut Rng, model: &mut model::Model, rep: &mut Repo
             if i < 6 {
                 rep.sample(serde_json::json!({"stream": "A", "sql": format!("SELECT {} FROM t1", x.sql()), "row": row.iter().map(|v| v.proto()).collect::<Vec<_>>(), "model_request": format!("arith {}", x.sx(&row))}));
             }
-            stream_a_case(&x, &row, model, rep, "column");
+            stream_a_case(&x, &row, model, rep, if i % 4 == 1 { "column" } else { "column_bigint" });
         }
     }
 }
